@@ -102,11 +102,11 @@ SYNC_INVS = ["Correct", "OrderCorrect", "DirCorrect", "OneToOneInv", "Mutual", "
 def _sync_cfgs(tier):
     if tier == QUICK:
         # max_tau from well below an ISI to beyond the recording length (TauQ are quarters)
-        return [dict(TS=0, TE=5, MaxSp=6, MRTSQ=tla_set([0, 12]), TauQ=tla_set([0, 2, 14])),
+        return [dict(TS=0, TE=5, MaxSp=6, MRTSQ=tla_set([0, 24]), TauQ=tla_set([0, 6, 14])),
                 dict(TS=-2, TE=5, MaxSp=3, MRTSQ=tla_set([0, 30]), TauQ=tla_set([0, 4, 40]))]
     return [dict(TS=0, TE=6, MaxSp=7, MRTSQ=tla_set([0, 8, 12, 24]), TauQ=tla_set([0, 2, 4, 8, 16])),
             dict(TS=-2, TE=6, MaxSp=3, MRTSQ=tla_set([0, 8, 12]), TauQ=tla_set([0, 2, 3, 6, 20, 100])),
-            dict(TS=0, TE=9, MaxSp=3, MRTSQ=tla_set([0, 12]), TauQ=tla_set([0, 4, 6, 30]))]
+            dict(TS=0, TE=9, MaxSp=3, MRTSQ=tla_set([0, 24]), TauQ=tla_set([0, 4, 6, 30]))]
 
 
 def _run_sync(ctx, checkers, what):
@@ -144,6 +144,14 @@ def c03(ctx):
             ctx.count_actions(r["path"], "SingleScan.")
         replay.run(ctx, "single", res.exports)
     ctx.require_actions(["move", "prev", "prev-hit", "next", "next-hit", "skip"], "SingleScan.")
+    # the public routes of the two scans: the filter (per-spike indicator) and the list form of the profile,
+    # with a threshold and a window bound that change coincidences
+    q = ctx.tier == QUICK
+    _multi(ctx, dict(N=3, TE=5, MaxSp=2, ThrCodes="{1, 12}", MRTS4=24, TAU4=16, Sample=5 if q else 12), ["filter", "sync_profile", "sync"],
+           ["FilterEqualsProfile", "PooledEvents"], ["multi_abs", "filter_rel"],
+           "filter / list forms with MRTS = 6 (window floor 1.5) and max_tau = 4: the indicator used for filtering agrees with the profile")
+    _multi(ctx, dict(N=2, TE=6, MaxSp=3, ThrCodes="{1}", MRTS4=0, TAU4=8, IdxMode='"none"'), ["sync_profile", "sync", "filter"],
+           ["PooledEvents"], ["multi_abs", "multi_forms"], "two trains handed over as a list, max_tau = 1")
     import traces as _traces
     _traces.validate_scan(ctx, "sync", ctx.seed + 103, 300 if ctx.tier == QUICK else 4000)
     ctx.assumptions += ["integer spike times, MRTS and max_tau on the quarter grid so that dt = tau ties are exact in floats",
@@ -159,8 +167,10 @@ def c04(ctx):
     dfns = ["order_profile", "order", "dir_matrix", "dir_values"]
     _multi(ctx, dict(N=3, IdxMode='"all"', Sample=5 if q else 10), dfns, ["Antisymmetric", "SynfireFromMatrix", "PooledEvents"],
            ["multi_abs", "dir_rel"], "multivariate order / directionality: every ordered index selection")
-    _multi(ctx, dict(N=4, IdxMode='"all"', Sample=2 if q else 4, TAU4=4, MRTS4=6), dfns, ["Antisymmetric", "SynfireFromMatrix"],
+    _multi(ctx, dict(N=4, IdxMode='"all"', Sample=2 if q else 4, TAU4=8, MRTS4=12), dfns, ["Antisymmetric", "SynfireFromMatrix"],
            ["multi_abs", "dir_rel"], "N = 4")
+    _multi(ctx, dict(N=3, TE=9, MaxSp=3, Sample=3 if q else 8, IdxMode='"pairs"'), dfns, [], ["multi_auto"],
+           "MRTS='auto' with an index selection: matrix, values, order and synfire indicator use the same (whole-list) threshold")
     ctx.assumptions += ["integer spike times, MRTS and max_tau on the quarter grid",
                         "the compiled configuration executes the .pyx sources by transliteration (harness/pyxshim.py)"]
     return ctx.finish(rule="every ordered pair of trains x MRTS x max_tau; a case is one TLC terminal state; "
@@ -189,10 +199,10 @@ def _run_rel(ctx, invs, ck, cfgs, what, backends=("py", "shim")):
 def c07(ctx):
     """range, symmetry, identity"""
     if ctx.tier == QUICK:
-        cfgs = [dict(TS=0, TE=5, MaxSp=6, RISet="{FALSE, TRUE}", _mrtsq=[0, 10], _tauq=[0, 4])]
+        cfgs = [dict(TS=0, TE=5, MaxSp=6, RISet="{FALSE, TRUE}", _mrtsq=[0, 18], _tauq=[0, 6])]
     else:
         cfgs = [dict(TS=0, TE=6, MaxSp=7, RISet="{FALSE, TRUE}", _mrtsq=[0, 16], _tauq=[0, 6]),
-                dict(TS=-2, TE=6, MaxSp=3, RISet="{FALSE}", _mrtsq=[0, 10, 40], _tauq=[0, 4])]
+                dict(TS=-2, TE=6, MaxSp=3, RISet="{FALSE}", _mrtsq=[0, 10, 40], _tauq=[0, 6])]
     _run_rel(ctx, ["Symmetric", "Identity", "InRange"], "rel_c07", cfgs,
              "definitions are symmetric, zero / one on identical trains, in range")
     # the range clause on inputs beyond the grid: InRange is an invariant of the scan modules and is
@@ -209,17 +219,17 @@ def c07(ctx):
 def c08(ctx):
     """shift / scale invariance, mirror symmetry"""
     if ctx.tier == QUICK:
-        cfgs = [dict(TS=0, TE=5, MaxSp=6, RISet="{FALSE}", _mrtsq=[0, 10], _tauq=[0, 4], _shiftsp=[2, 7], _scales=[3]),
-                dict(TS=0, TE=5, MaxSp=2, RISet="{TRUE}", _mrtsq=[6], _tauq=[2], _shiftsp=[4], _scales=[2])]
+        cfgs = [dict(TS=0, TE=5, MaxSp=6, RISet="{FALSE}", _mrtsq=[0, 18], _tauq=[0, 6], _shiftsp=[2, 7], _scales=[3]),
+                dict(TS=0, TE=5, MaxSp=2, RISet="{TRUE}", _mrtsq=[6], _tauq=[10], _shiftsp=[4], _scales=[2])]
     else:
-        cfgs = [dict(TS=0, TE=6, MaxSp=5, RISet="{FALSE}", _mrtsq=[0, 10], _tauq=[0, 4], _shiftsp=[2, 7], _scales=[3]),
+        cfgs = [dict(TS=0, TE=6, MaxSp=5, RISet="{FALSE}", _mrtsq=[0, 18], _tauq=[0, 6], _shiftsp=[2, 7], _scales=[3]),
                 dict(TS=-2, TE=6, MaxSp=3, RISet="{TRUE}", _mrtsq=[0, 6], _tauq=[0, 6], _shiftsp=[0, 6], _scales=[2, 5])]
     _run_rel(ctx, ["ShiftInv", "ScaleInv", "MirrorSym"], "rel_c08", cfgs,
              "definitions commute with shift / scale / mirror of the time axis")
     q = ctx.tier == QUICK
     tfns = ["isi_profile", "spike_profile", "sync_profile", "order_profile", "isi_distance", "spike_distance", "sync",
             "order", "isi_matrix", "sync_matrix", "dir_matrix", "dir_values"]
-    _multi(ctx, dict(N=3, IdxMode='"none"', Sample=6 if q else 12, IvCodes="{0, 206}", MRTS4=6, TAU4=4), tfns, [],
+    _multi(ctx, dict(N=3, IdxMode='"none"', Sample=6 if q else 12, IvCodes="{0, 206}", MRTS4=12, TAU4=8), tfns, [],
            ["multi_transform"], "lists of trains under shift / scale / mirror (multivariate forms)")
     ctx.assumptions += ["integer shifts and scale factors on the spec side; the code is additionally run with dyadic factors 1/2, 1/4 and a shift of 1/2 (exact in floats)"]
     return ctx.finish(rule="every ordered pair of trains x keywords x {2 shifts, scale, 1/2, 1/4, shift 1/2, mirror}; "
@@ -230,10 +240,10 @@ def c15(ctx):
     """MRTS monotone, no-op below all ISIs, 'auto' = pooled ISI threshold (bivariate part)"""
     if ctx.tier == QUICK:
         cfgs = [dict(TS=0, TE=5, MaxSp=6, RISet="{FALSE}", _mrtsq=[0, 2, 6, 10, 30], _tauq=[0]),
-                dict(TS=0, TE=5, MaxSp=3, RISet="{TRUE}", _mrtsq=[0, 3, 12], _tauq=[4])]
+                dict(TS=0, TE=5, MaxSp=3, RISet="{TRUE}", _mrtsq=[0, 3, 12], _tauq=[6])]
     else:
         cfgs = [dict(TS=0, TE=6, MaxSp=5, RISet="{FALSE}", _mrtsq=[0, 2, 6, 10, 30], _tauq=[0]),
-                dict(TS=-2, TE=6, MaxSp=3, RISet="{TRUE}", _mrtsq=[0, 8, 40], _tauq=[0, 4])]
+                dict(TS=-2, TE=6, MaxSp=3, RISet="{TRUE}", _mrtsq=[0, 8, 40], _tauq=[0, 6])]
     _run_rel(ctx, ["ZeroIsPlain", "Monotone", "BelowAllIsNoOp"], "rel_c15", cfgs,
              "definitions: MRTS=0 is the plain measure, values monotone in MRTS, no-op below all ISIs")
     q = ctx.tier == QUICK
@@ -247,6 +257,9 @@ def c15(ctx):
     _multi(ctx, dict(N=3, TE=9, MaxSp=3, Sample=6 if q else 14), ["sync_profile", "sync", "sync_matrix", "isi_distance",
                                                                    "order", "filter"], [], ["multi_auto"],
            "longer recording: the pooled threshold differs from the per-pair thresholds")
+    _multi(ctx, dict(N=3, TE=9, MaxSp=3, Sample=4 if q else 10, IdxMode='"pairs"'),
+           ["sync_profile", "sync", "sync_matrix", "isi_distance", "isi_profile", "isi_matrix", "order", "order_profile", "dir_matrix", "dir_values"],
+           [], ["multi_auto"], "longer recording, index selections: the pool is the whole list, not the selection")
     ctx.assumptions += ["the irrational automatic threshold is compared as a double with sqrt of the exact pooled mean square"]
     return ctx.finish(rule="every ordered pair of trains x ordered pairs MRTS1 <= MRTS2 from the configured set; "
                            "one case = one TLC state of Relations")
@@ -298,9 +311,9 @@ def c12(ctx):
              ["Correct", "Export"], "twin_isi"),
             ("SpikeScan", dict(TS=0, TE=5 if q else 6, MaxSp=6 if q else 7, MRTSQ=tla_set([0, 10]), RISet="{FALSE, TRUE}", DevF9="FALSE"),
              ["Correct", "Export"], "twin_spike"),
-            ("SyncScan", dict(TS=0, TE=5 if q else 6, MaxSp=6 if q else 7, MRTSQ=tla_set([0, 12]), TauQ=tla_set([0, 4, 14] if q else [0, 2, 4, 18]), DevF1="FALSE"),
+            ("SyncScan", dict(TS=0, TE=5 if q else 6, MaxSp=6 if q else 7, MRTSQ=tla_set([0, 24]), TauQ=tla_set([0, 6, 14] if q else [0, 2, 6, 18]), DevF1="FALSE"),
              ["Correct", "OrderCorrect", "DirCorrect", "AccCorrect", "Export"], "twin_sync"),
-            ("SyncScan", dict(TS=0, TE=7 if q else 9, MaxSp=3, MRTSQ=tla_set([0, 12]), TauQ=tla_set([0, 6, 24]), DevF1="FALSE"),
+            ("SyncScan", dict(TS=0, TE=7 if q else 9, MaxSp=3, MRTSQ=tla_set([0, 24]), TauQ=tla_set([0, 6, 24]), DevF1="FALSE"),
              ["Correct", "OrderCorrect", "DirCorrect", "AccCorrect", "Export"], "twin_sync")]
     for mod, c, invs, ck in runs:
         res = run_tlc(mod, c, invs, workers=16, timeout=6000)
@@ -319,7 +332,7 @@ def c12(ctx):
     for ck in ("twin_isi", "twin_spike", "twin_sync"):
         replay.run(ctx, ck, big, backends=("shim",), chunk=50)
     # the public functions under both configurations (the fallback branches of the dispatchers included)
-    res = run_tlc("Relations", dict(TS=0, TE=5, MaxSp=3 if q else 4, MRTSQ=tla_set([0, 10]), TauQ=tla_set([0, 4, 14]),
+    res = run_tlc("Relations", dict(TS=0, TE=5, MaxSp=3 if q else 4, MRTSQ=tla_set([0, 18]), TauQ=tla_set([0, 6, 14]),
                                     RISet="{FALSE, TRUE}", ShiftsP="{5}", Scales="{1}"), ["Export"], workers=16, timeout=3000)
     ctx.add_tlc(res, "cases for the API-level comparison of the two backend configurations")
     if not res.violated:
@@ -469,10 +482,10 @@ def c05(ctx):
     q = ctx.tier == QUICK
     runs = [dict(N=3, TE=4, MaxSp=2, IvCodes="{0, 105, 208, 307}", Sample=0 if not q else 8),
             dict(N=3, TE=4, MaxSp=2, IvCodes="{0, 206}", Sample=4 if q else 8, IdxMode='"all"', TAU4=8),
-            dict(N=2, TE=4, MaxSp=3, IvCodes="{0, 3, 204, 508, 8}", IdxMode='"none"', MRTS4=6, TAU4=4, RIFlag="TRUE"),
+            dict(N=2, TE=4, MaxSp=3, IvCodes="{0, 3, 204, 508, 8}", IdxMode='"none"', MRTS4=12, TAU4=8, RIFlag="TRUE"),
             dict(N=4, TE=4, MaxSp=2, IvCodes="{0, 206}", Sample=4 if q else 7, MRTS4=8)]
     if not q:
-        runs += [dict(N=3, TS=-2, TE=3, MaxSp=2, IvCodes="{0, 109, 305}", Sample=9, MRTS4=6, TAU4=6, RIFlag="TRUE", IdxMode='"all"')]
+        runs += [dict(N=3, TS=-2, TE=3, MaxSp=2, IvCodes="{0, 109, 305}", Sample=9, MRTS4=12, TAU4=10, RIFlag="TRUE", IdxMode='"all"')]
     for r in runs:
         _multi(ctx, r, fns, ["RouteSEqRouteP"], ["multi_avg"], "scalar route = average of the profile route")
     ctx.assumptions += ["code-vs-code: the scalar returned by the distance function against avrg(interval) of the profile returned "
@@ -490,15 +503,20 @@ def c06(ctx):
            ["multi_abs", "multi_perm"], "multivariate profile = pointwise mean / pooled events; permutation invariant")
     _multi(ctx, dict(N=3, Sample=0 if not q else 9, IvCodes="{0, 206}"), mats, ["MatrixIsBivariate"],
            ["multi_abs", "multi_perm"], "matrices contain the bivariate values")
-    _multi(ctx, dict(N=4, Sample=4 if q else 6, MRTS4=6, TAU4=4, RIFlag="TRUE"), prof + mats,
+    _multi(ctx, dict(N=4, Sample=4 if q else 6, MRTS4=12, TAU4=8, RIFlag="TRUE"), prof + mats,
            ["PointwiseMean", "PooledEvents", "MatrixIsBivariate"], ["multi_abs", "multi_perm"],
            "N = 4 (tail branches of the adds, recursive halving of 6 pairs)")
-    _multi(ctx, dict(N=5, TE=4, MaxSp=2, Sample=2 if q else 3, MRTS4=6, TAU4=4, RIFlag="TRUE"),
+    _multi(ctx, dict(N=5, TE=4, MaxSp=2, Sample=2 if q else 3, MRTS4=12, TAU4=8, RIFlag="TRUE"),
            ["isi_profile", "spike_profile", "sync_profile", "isi_distance", "sync"],
            ["PointwiseMean", "PooledEvents"], ["multi_abs", "multi_perm"], "N = 5: ten pairs, uneven halving, keywords that matter")
     if not q:
-        _multi(ctx, dict(N=3, TS=-2, TE=3, MaxSp=3, Sample=8, MRTS4=10, TAU4=6), prof + mats,
+        _multi(ctx, dict(N=3, TS=-2, TE=3, MaxSp=3, Sample=8, MRTS4=10, TAU4=10), prof + mats,
                ["PointwiseMean", "PooledEvents", "MatrixIsBivariate"], ["multi_abs", "multi_perm"], "second origin, 3 spikes")
+    # MRTS='auto': the threshold of a multivariate call is pooled over the whole list that is handed over
+    # (also when indices select a part of it), so that it stays the mean / aggregate of the pair values
+    _multi(ctx, dict(N=3, TE=9, MaxSp=3, Sample=3 if q else 8, IdxMode='"pairs"'),
+           ["isi_distance", "isi_profile", "sync", "sync_profile"] + ["isi_matrix", "sync_matrix"], [], ["multi_auto"],
+           "MRTS='auto' with an index selection")
     import traces as _traces
     _traces.validate_multi(ctx, ctx.seed + 201, 120 if q else 1500)
     _traces.validate_multi(ctx, ctx.seed + 202, 60 if q else 800, mrts4=6, tau4=8, ri=True)
@@ -515,11 +533,11 @@ def c14(ctx):
            "order", "isi_matrix", "spike_matrix", "sync_matrix", "dir_matrix", "dir_values"]
     _multi(ctx, dict(N=3, IdxMode='"all"', Sample=5 if q else 10, IvCodes="{0, 206}"), fns, [], ["multi_forms", "multi_abs"],
            "every ordered index selection of size >= 2")
-    _multi(ctx, dict(N=4, IdxMode='"all"', Sample=2 if q else 4, MRTS4=6, TAU4=4, RIFlag="TRUE"), fns, [],
+    _multi(ctx, dict(N=4, IdxMode='"all"', Sample=2 if q else 4, MRTS4=12, TAU4=8, RIFlag="TRUE"), fns, [],
            ["multi_forms", "multi_abs"], "N = 4: 60 ordered selections")
-    _multi(ctx, dict(N=3, IdxMode='"all"', Sample=4 if q else 8, MRTS4=6, TAU4=4, RIFlag="TRUE", IvCodes="{0, 105}"), fns, [],
+    _multi(ctx, dict(N=3, IdxMode='"all"', Sample=4 if q else 8, MRTS4=12, TAU4=8, RIFlag="TRUE", IvCodes="{0, 105}"), fns, [],
            ["multi_forms", "multi_abs"], "keywords that matter (max_tau = 1, MRTS = 1.5, RI) through every form")
-    _multi(ctx, dict(N=5, IdxMode='"perms"', Sample=1 if q else 2, MRTS4=6), ["isi_profile", "sync_profile", "order_profile", "isi_distance"],
+    _multi(ctx, dict(N=5, IdxMode='"perms"', Sample=1 if q else 2, MRTS4=12), ["isi_profile", "sync_profile", "order_profile", "isi_distance"],
            [], ["multi_forms", "multi_abs"], "N = 5: every ordering of the whole list as index selection (10 pairs, recursive halving)")
     ctx.assumptions += ["the expected value of f(list, indices=idx) is computed by the spec on the selected sub-list in the "
                         "given order; the forms are compared with each other on the code"]
@@ -532,12 +550,15 @@ def c17(ctx):
     q = ctx.tier == QUICK
     _multi(ctx, dict(N=3, ThrCodes="{1, 12, 11, 14, 34}", Sample=0 if not q else 9), ["filter"],
            ["FilterPartition", "FilterEqualsProfile"], ["multi_abs", "filter_rel"], "N = 3, thresholds 0, 1/2, 1, 1/4, 3/4")
-    _multi(ctx, dict(N=4, ThrCodes="{13, 23, 12, 16}", Sample=4 if q else 6, TAU4=4, MRTS4=6), ["filter"],
+    _multi(ctx, dict(N=4, ThrCodes="{13, 23, 12, 16}", Sample=4 if q else 6, TAU4=8, MRTS4=12), ["filter"],
            ["FilterPartition", "FilterEqualsProfile"], ["multi_abs", "filter_rel"], "N = 4, thresholds k/3 hit exactly")
     _multi(ctx, dict(N=3, ThrCodes="{1, 12}", PoolMode='"deg"', TAU4=12), ["filter"],
            ["FilterPartition", "FilterEqualsProfile"], ["multi_abs", "filter_rel"], "max_tau beyond half the recording")
     _multi(ctx, dict(N=2, MaxSp=3, ThrCodes="{1, 12, 11}", TE=5), ["filter"],
            ["FilterPartition", "FilterEqualsProfile"], ["multi_abs", "filter_rel"], "N = 2")
+    # a longer recording with tight spikes: the automatic threshold (pooled over the whole list) changes coincidences
+    _multi(ctx, dict(N=3, TE=9, MaxSp=3, ThrCodes="{1, 12}", Sample=8 if q else 20), ["filter"],
+           ["FilterPartition", "FilterEqualsProfile"], ["multi_abs", "filter_rel"], "MRTS='auto' in the filter = the pooled threshold")
     return ctx.finish(rule="lists x thresholds (k/(N-1) exactly and mid-points); kept / removed arrays compared exactly")
 
 
@@ -580,7 +601,7 @@ def c18(ctx):
     q = ctx.tier == QUICK
     runs = [dict(N=2, PoolMode='"deg"', IvCodes="{0, 105, 4}"),
             dict(N=3, PoolMode='"deg"', IvCodes="{0, 206}", Sample=0 if not q else 5),
-            dict(N=3, PoolMode='"deg"', MRTS4=6, TAU4=4, RIFlag="TRUE", Sample=0 if not q else 5),
+            dict(N=3, PoolMode='"deg"', MRTS4=12, TAU4=8, RIFlag="TRUE", Sample=0 if not q else 5),
             dict(N=4, PoolMode='"deg"', Sample=3 if q else 6, IdxMode='"none"'),
             dict(N=3, PoolMode='"deg"', Sample=4 if q else 0, IdxMode='"all"', TAU4=8),
             dict(N=3, MaxSp=3, TE=5, Sample=6 if q else 12, IvCodes="{0, 307}", MRTS4=10, TAU4=0)]
@@ -673,8 +694,157 @@ def c20(ctx):
                            "generate_poisson_spikes (3 interval forms x 5 rates) and merge_spike_trains validated as traces")
 
 
+# ================================================================================================
+# coverage extensions: specification modules for behaviour none of the 20 listed properties talks
+# about (DESIGN.md section 11).  Not registered in MANIFEST.json; evidence under evidence/extensions/.
+SIMANN_INVS = ["PermInv", "AIsObjective", "ConvergedLocal", "Bounded"]
+
+
+def x01(ctx):
+    """simulated annealing for the optimal spike-train order: SimAnn.tla <-> cython_simulated_annealing.pyx"""
+    import json
+    import traces as tr_mod
+    from common import scratch, rmtree
+    import checkers_simann as cs
+    q = ctx.tier == QUICK
+    # (1) the design, exhaustively on small loop bounds: invariants in every state, termination
+    for c in ([dict(N=3, VRaw="{0,1,2,3,4}", VOff=2, ItF=2, SuccF=1, Levels=3)] if q else
+              [dict(N=3, VRaw="{0,1,2,3,4}", VOff=2, ItF=2, SuccF=1, Levels=3),
+               dict(N=3, VRaw="{1,2,3,4,5}", VOff=3, ItF=3, SuccF=2, Levels=2),
+               dict(N=4, VRaw="{0,1,2}", VOff=1, ItF=1, SuccF=1, Levels=2)]):
+        c = dict(c, Hist="FALSE", ColdFrom=99)
+        res = run_tlc("SimAnn", c, SIMANN_INVS, properties=["DrawRule", "Terminates"], spec="Spec", view="View",
+                      workers=16, timeout=3000, coverage=True)
+        ctx.add_tlc(res, "every behaviour of the annealing loop on small loop bounds: p a permutation, A the objective of "
+                         "the current order, local optimality on convergence, termination")
+    # (2) spec -> code with the loop bounds of the code (100*N, 10*N): simulated behaviours, hot / cooling / greedy
+    sims = [dict(N=3, Levels=2, ColdFrom=99, num=12 if q else 60, wrapper=False),
+            dict(N=3, Levels=110, ColdFrom=1, num=12 if q else 60, wrapper=True),
+            dict(N=4, Levels=110, ColdFrom=0, num=8 if q else 40, wrapper=True),
+            dict(N=2, Levels=110, ColdFrom=2, num=6 if q else 20, wrapper=True),
+            dict(N=5, Levels=3, ColdFrom=2, num=6 if q else 30, wrapper=False, VRaw="{2,3,4}"),
+            # plateaus (zero entries): swaps that leave A unchanged keep the search alive through all 110 temperatures
+            dict(N=3, Levels=110, ColdFrom=1, num=3 if q else 12, wrapper=True, VRaw="{3,4}")]
+    for s in sims:
+        c = dict(N=s["N"], VRaw=s.get("VRaw", "{0,1,2,3,4,5,6}"), VOff=3, ItF=100, SuccF=10, Levels=s["Levels"], Hist="TRUE",
+                 ColdFrom=s["ColdFrom"])
+        res = run_tlc("SimAnn", c, ["PermInv", "AIsObjective", "Export"], action_constraints=["Cold"], simulate=s["num"],
+                      depth=100000, seed=(ctx.seed or 1) + s["N"], timeout=3000)
+        ctx.add_tlc(res, "simulated behaviours with the loop bounds of the code (N=%d, %d temperatures, cold from %d)" % (
+            s["N"], s["Levels"], s["ColdFrom"]), exhaustive=False)
+        if res.violated:
+            continue
+        ex = [r for r in res.exports if r.get("k") == "simann"]
+        if not ex:
+            raise MachineryError("simulation of SimAnn exported no finished behaviour")
+        for r in ex:
+            r["wrapper"] = bool(s["wrapper"])
+            acts = set()
+            if r["levels"] == 110 and not r["conv"]:
+                acts.add("LevelBound110")
+            for i, acc, up in r["hist"]:
+                acts.add("Accept.improving" if up else ("Accept.worsening" if acc else "Reject"))
+            ctx.count_actions(sorted(acts), "SimAnn.")
+            ctx.count_path("simann:%d:%s:%d" % (s["N"], r["conv"], r["levels"]))
+        e0 = max(ex, key=lambda r: len(r["hist"]))
+        ctx.sample({"D": e0["D"], "draws": len(e0["hist"]), "p": e0["p"], "A": e0["A"], "total": e0["total"], "levels": e0["levels"]}, limit=8)
+        replay.run(ctx, "simann", ex, backends=("py",), chunk=4)
+    ctx.require_actions(["Accept.improving", "Accept.worsening", "Reject", "LevelBound110"], "SimAnn.")
+    # (3) code -> spec: observed executions validated by SimAnnTrace
+    import impl
+    impl.set_backend("py")
+    batches = [dict(N=3, levels=3, wrapper=False, count=6 if q else 30),
+               dict(N=4, levels=2, wrapper=False, count=4 if q else 20),
+               dict(N=3, levels=110, wrapper=True, count=2 if q else 8),
+               dict(N=2, levels=110, wrapper=True, count=2 if q else 6)]
+    for bi, b in enumerate(batches):
+        trs = cs.record((ctx.seed or 1) * 100 + bi, b["count"], b["N"], b["levels"], b["wrapper"])
+        bad = [t for t in trs if "error" in t]
+        for t in bad:
+            ctx.mismatch("simann_trace", {"trace": t}, "sim_ann D=%s: %s" % (t["D"], t["error"]))
+        trs = [t for t in trs if "error" not in t]
+        if not trs:
+            continue
+        d = scratch("pyspike_sa_")
+        try:
+            path = os.path.join(d, "traces.json")
+            with open(path, "w") as f:
+                json.dump(trs, f)
+            res = run_tlc("SimAnnTrace", dict(N=b["N"], VRaw="{0}", VOff=0, ItF=100, SuccF=10, Levels=b["levels"], Hist="FALSE",
+                                              ColdFrom=999),
+                          SIMANN_INVS + ["Verdict"], init="TInit", nxt="TNext", workers=8, timeout=3000,
+                          env={"TRACE_FILE": path})
+        finally:
+            rmtree(d)
+        ctx.add_tlc(res, "%d observed executions (N=%d, %s) validated step by step" % (
+            len(trs), b["N"], "through the public wrapper" if b["wrapper"] else "%d temperatures" % b["levels"]))
+        if res.violated:
+            continue
+        verdicts = {}
+        for v in res.exports:
+            if v.get("k") == "verdict" and (v["id"] not in verdicts or not v["accepted"]):
+                verdicts[v["id"]] = v
+        if len(verdicts) != len(trs):
+            raise MachineryError("trace validation: %d verdicts for %d traces" % (len(verdicts), len(trs)))
+        for t in trs:
+            ctx.traces += 1
+            ctx.evaluations += len(t["events"])
+            v = verdicts[t["id"]]
+            if not v["accepted"]:
+                at = v["at"]
+                ctx.mismatch("simann_trace", {"trace": dict(t, events=t["events"][:max(0, at - 3)][-6:] + t["events"][max(0, at - 3):at + 2])},
+                             "sim_ann D=%s: the observed execution is not a behaviour of SimAnn: rejected at event %d of %d "
+                             "(model: level %d, iteration %d, p=%s A=%s total=%s; observed: %s, returned p=%s A=%s total=%s)" % (
+                                 t["D"], at, len(t["events"]), v["level"], v["it"], v["p"], v["A"], v["total"],
+                                 t["events"][at - 1] if at <= len(t["events"]) else "return", t["p"], t["A"], t["total"]))
+    ctx.assumptions += ["the kernel is executed by source transliteration with an injected rand(); the temperature is abstracted to "
+                        "the number of cooling steps; D is an antisymmetric integer matrix",
+                        "the acceptance probability is not modelled: a non-improving swap may or may not be taken at any temperature"]
+    return ctx.finish(rule="exhaustive on small loop bounds; simulated behaviours and observed executions with the code's bounds")
+
+
+OBJ_INVS = ["WarnOnce", "WarnIffNeeded", "PrintedImpliesWarned", "SortIdempotent", "NonEmptyView"]
+OBJ_PROPS = ["SortedAfterSort", "SortKeepsMultiset", "CopyIsEqual", "OnlyTargetChanges", "MeasuresLeaveTrains", "ScalarEdge"]
+
+
+def x02(ctx):
+    """SpikeTrain objects (construct / sort / copy / edit) and the once-only fallback warning: Objects.tla"""
+    q = ctx.tier == QUICK
+    cfgs = [dict(T0=1, T1=4, Vals="{1, 2, 4}", MaxLen=2, MaxOps=3),
+            dict(T0="<- Neg2", T1=3, Vals="{0, 3}", MaxLen=3, MaxOps=2)]
+    if not q:
+        cfgs += [dict(T0=0, T1=5, Vals="{0, 2, 3, 5}", MaxLen=3, MaxOps=3)]
+    for c in cfgs:
+        for compiled in ("FALSE", "TRUE"):
+            cc = dict(c, Compiled=compiled)
+            res = run_tlc("Objects", cc, OBJ_INVS, properties=OBJ_PROPS, view="View", action_constraints=["TransExport"],
+                          workers=16, timeout=3000)
+            ctx.add_tlc(res, "sessions of <= %d operations on two train objects, kernels %s" % (
+                c["MaxOps"], "importable" if compiled == "TRUE" else "not importable"))
+            if res.violated:
+                continue
+            ex = [r for r in res.exports if r.get("k") == "otrans"]
+            # one representative per (operation, pre-state, arguments): the export repeats transitions
+            seen = set()
+            uniq = []
+            for r in ex:
+                key = repr((r["pre"], r["op"], r["warned"]))
+                if key not in seen:
+                    seen.add(key)
+                    uniq.append(r)
+            for r in uniq:
+                ctx.count_actions([r["op"]["f"] if r["op"]["f"] in ("new", "sort", "copy", "write", "disable") else "measure"], "Objects.")
+                ctx.count_path("obj:%s:%s:%s" % (r["op"]["f"], r["warned"], r["printed"]))
+            ctx.sample(uniq[len(uniq) // 2])
+            replay.run(ctx, "objects", uniq, backends=(("shim",) if compiled == "TRUE" else ("py",)), chunk=300)
+    ctx.require_actions(["new", "sort", "copy", "write", "disable", "measure"], "Objects.")
+    ctx.assumptions += ["spike times from a small value set, two objects, sessions of <= 3 operations, every transition replayed "
+                        "from freshly built objects with the warning flag set to the pre-state"]
+    return ctx.finish(rule="every transition (heap, flag, operation) reachable within MaxOps operations")
+
+
 import re as _re
 
 
 def _props():
-    return {k.upper(): v for k, v in globals().items() if _re.match(r"c\d\d$", k) and callable(v)}
+    return {k.upper(): v for k, v in globals().items() if _re.match(r"[cx]\d\d$", k) and callable(v)}
